@@ -36,7 +36,7 @@ CALCS = ["vasp", "qe", "abinit", "wien2k", "elk", "siesta", "cp2k", "crystal", "
 
 def gen_cases(tier, seed):
     rng = np.random.default_rng([seed, 16])
-    names = ["rocksalt", "cscl", "zincblende", "afm_cr", "afm_cr_nc", "tric2", "rutile", "wurtzite", "sc", "fm_fe_tet", "perovskite", "mono_p"]
+    names = ["rocksalt", "cscl", "zincblende", "afm_cr", "afm_cr_nc", "tric2", "rutile", "wurtzite", "sc", "fm_fe_tet", "perovskite", "mono_p", "rhomb_bi", "rhomb_hex", "hcp"]  # (trigonal groups: Hall symbols with a double quote)
     cases = []
     n = 64 if tier == "quick" else 400
     for i in range(n):
